@@ -117,14 +117,15 @@ func Clean(m *testing.M, opts ...CleanOpts) {
 	}
 }
 
-// getTestID will return the testID if the line is in the form of [Test... - number]
+// getTestID will return the testID if the line is in the form of [<test name> - number]
 func getTestID(b []byte) (string, bool) {
 	if len(b) == 0 {
 		return "", false
 	}
 
-	// needs to start with [Test and end with ]
-	if !bytes.HasPrefix(b, []byte("[Test")) || b[len(b)-1] != ']' {
+	// needs to start with [ and end with ], the name is not required to start with
+	// Test: fuzz targets, benchmarks and examples create snapshots too
+	if b[0] != '[' || b[len(b)-1] != ']' {
 		return "", false
 	}
 
